@@ -39,56 +39,107 @@ def snapshot(ex):
     return snap, share
 
 
-def snap_diff(a, b):
+def snap_diff(a, b, skip=()):
+    """first difference between two snapshots as 'category: message' (categories: gone, value, constant, base, creator,
+    identity, sharing); differences in the categories listed in `skip` are ignored"""
     (sa, ha), (sb, hb) = a, b
     for n in sa:
         if n not in sb:
-            return f"t{n} disappeared"
+            return f"gone: t{n} disappeared"
         x, y = sa[n], sb[n]
         if x[0] != y[0] or not np.array_equal(x[1], y[1]):
-            return f"t{n} changed value: {x[1].tolist()} -> {y[1].tolist()}"
+            return f"value: t{n} changed value: {x[1].tolist()} -> {y[1].tolist()}"
         if x[2] != y[2]:
-            return f"t{n}.constant changed {x[2]} -> {y[2]}"
-        if x[3] != y[3]:
-            return f"t{n}.base changed t{x[3]} -> t{y[3]}"
+            return f"constant: t{n}.constant changed {x[2]} -> {y[2]}"
+        if x[3] != y[3] and "base" not in skip:
+            return f"base: t{n}.base changed t{x[3]} -> t{y[3]}"
         if x[4] != y[4]:
-            return f"t{n} {'lost' if y[4] else 'gained'} its creator"
-        if x[5] != y[5]:
-            return f"t{n} is a different object"
+            return f"creator: t{n} {'lost' if y[4] else 'gained'} its creator"
+        if x[5] != y[5] and "identity" not in skip:
+            return f"identity: t{n} is a different object"
     for k in ha:
         if k in hb and ha[k] != hb[k]:
-            return f"memory sharing of t{k[0]},t{k[1]} changed {ha[k]} -> {hb[k]}"
+            return f"sharing: memory sharing of t{k[0]},t{k[1]} changed {ha[k]} -> {hb[k]}"
     return None
+
+
+INPLACE_K = ("set", "aug", "outb", "outu")
 
 
 def oracle(prog, idx):
     """(1) every failing statement leaves every existing tensor as it was; (2) the program with the failing statements
-    removed ends in the same state with the same gradients; (3) no array stays locked on behalf of a failed op"""
+    removed ends in the same state with the same gradients; (3) no array stays locked on behalf of a failed op.
+
+    One family of differences is classed apart (`failed-inplace-discards-stale-links`): `_in_place_op` decides, before
+    it knows whether the update will succeed, that state left over from an *earlier graph epoch* is void — the
+    gradients of the target's view family, and the `.base` link of a view whose base no longer records it — and a
+    failing update does not bring them back.  Only differences in `.base` and `.grad`, and only after a failing
+    in-place update that follows a backward()/clear_graph(), belong to it; values, flags, creators, identities, memory
+    sharing and locks are held to the property in every history."""
     fails = []
     gc.collect()
     ex = progs.RealExec()
     outcomes = []
+    boundary_seen = False
+    stale_mode = False      # a failing in-place update has happened after an epoch boundary
+    stale_msg = None
     for st in prog:
+        if st[0] in ("back", "clear"):
+            boundary_seen = True
         before = snapshot(ex) if st[0] != "back" else None
+        # every `.grad` is read before every statement, in this run and in the twin run alike (reading the gradient
+        # of a view caches it, so the two runs must read at the same points to be comparable)
+        grads_before = {n: (None if t.grad is None else np.array(t.grad)) for n, t in ex.v.items()}
         r = ex.step(st)
         outcomes.append(r)
         if r != "ok" and st[0] != "back":
-            d = snap_diff(before, snapshot(ex))
+            after = snapshot(ex)
+            if st[0] in INPLACE_K and boundary_seen:
+                stale_mode = True
+            d = snap_diff(before, after, skip=("base",) if stale_mode else ())
             if d:
                 fails.append(("trace-left", f"failing `{progs.to_line(st)}` ({r}): {d}"))
                 return fails
+            if stale_mode and stale_msg is None:
+                d = snap_diff(before, after)
+                if d:
+                    stale_msg = f"failing `{progs.to_line(st)[:80]}` ({r}): {d}"
+                else:
+                    for n, g in grads_before.items():
+                        if g is not None and n in ex.v and ex.v[n].grad is None:
+                            stale_msg = f"failing `{progs.to_line(st)[:80]}` ({r}): t{n} lost the gradient it held from an earlier backward"
+                            break
+            if not stale_mode:
+                for n, g in grads_before.items():
+                    g2 = ex.v[n].grad if n in ex.v else None
+                    if n != st[1] and ((g is None) != (g2 is None) or (g is not None and not np.array_equal(g, g2))):
+                        fails.append(("trace-left", f"failing `{progs.to_line(st)}` ({r}): grad: t{n}.grad changed"))
+                        return fails
     nfail = sum(1 for r, st in zip(outcomes, prog) if r != "ok" and st[0] != "back")
     if nfail == 0:
         return []
     twin = [st for st, r in zip(prog, outcomes) if r == "ok" or st[0] == "back"]
-    ex2, out2 = engcheck.run_all(twin)
-    d = snap_diff((snapshot(ex)[0], {}), (snapshot(ex2)[0], {}))
-    if d is not None and "different object" not in d:
+    ex2 = progs.RealExec()
+    for st in twin:
+        for t in ex2.v.values():
+            _ = t.grad
+        ex2.step(st)
+    sa, sb = snapshot(ex)[0], snapshot(ex2)[0]
+    d = snap_diff((sa, {}), (sb, {}), skip=("identity", "base") if stale_mode else ("identity",))
+    if d is not None and stale_msg is not None:
+        pass  # a stale link was already seen to be dropped by a failing update: later differences are its consequences
+    elif d is not None:
         fails.append(("final-state-differs", f"with the {nfail} failing statement(s) removed: {d}"))
     else:
         g = engcheck.same_grads(engcheck.grads_of(ex), engcheck.grads_of(ex2))
-        if g:
+        if stale_mode:
+            d = snap_diff((sa, {}), (sb, {}), skip=("identity",))
+            if (d or g) and stale_msg is None:
+                stale_msg = f"with the {nfail} failing statement(s) removed: {d or g}"
+        elif g:
             fails.append(("final-grads-differ", f"with the {nfail} failing statement(s) removed: {g}"))
+    if stale_msg:
+        fails.append(("failed-inplace-discards-stale-links!", stale_msg))
     # locks: after everything is dropped no array may remain locked / counted
     arrs = [t.data for t in ex.v.values()]
     del ex, ex2
@@ -211,10 +262,22 @@ def run(ctx: Ctx) -> Outcome:
             nt += 1
     out.stats["programs_with_a_raised_statement"] = nt
     engcheck.report(out, results, "C13", oracle)
+    # the same with several graph epochs (backward / clear_graph / null_grad / dropped handles between the statements)
+    out2, results2 = engcheck.run_programs(ctx, ctx.n(600, 5000), dict(GEN, n_stmts=ctx.n(12, 18), multi_back=True), "oracle",
+                                           nontrivial, label="epochs:")
+    engcheck.report(out2, results2, "C13", oracle)
+    out.merge(out2)
     for name, cls, msg in scripted_cases():
         out.violations.append(Violation(f"C13|{cls}|{name}", msg, {"kind": "scripted", "name": name}))
     out.evaluations += N_SCRIPTED
     return out
+
+
+def check_witness(w):
+    for cls, msg in oracle(w["program"], 0):
+        if cls.endswith("!"):
+            return Violation(f"C13|{cls[:-1]}", msg, {"kind": "program", "program": w["program"], "class": cls})
+    return None
 
 
 def replay(data) -> bool:
